@@ -166,6 +166,14 @@ def _descr(e):
     return k
 
 
+def _writes_state(idx, g):
+    for h in idx.reachable(g) | {g}:
+        for (rec, fld), sites in idx.field_stores.items():
+            if rec in ('cat_object', 'cat_unsolicited_fsm', 'cat_unsolicited_cmd') and any(fn_ == h for fn_, _ in sites):
+                return True
+    return False
+
+
 def c17(ctx):
     """lockset discipline: every access to mutable parser state by the locking API is inside the lock"""
     m = ctx.model
@@ -189,9 +197,24 @@ def c17(ctx):
                 else:
                     s.pnull[args[i][1]] = False
         outs = m.run(f, args, setup=setup, shallow=exported | direct)
+        shapes = []     # per path with no failing mutex call: the critical sections as tuples of callee names
         for s, rv in outs:
             for seq in trace_paths(s.trace):
                 held = False
+                secs, cur, clean = [], None, True
+                for e in seq:
+                    if e['k'] == 'lock':
+                        clean = clean and bool(e['ok'])
+                        cur = [] if e['ok'] else None
+                    elif e['k'] == 'unlock':
+                        clean = clean and bool(e['ok'])
+                        if cur is not None:
+                            secs.append((tuple(cur), e))
+                        cur = None
+                    elif e['k'] == 'call_opaque' and cur is not None:
+                        cur.append(e['name'])
+                if clean:
+                    shapes.append(secs)
                 for e in seq:
                     if e['k'] == 'lock':
                         # a real (non-recursive) mutex: taking it again blocks the only thread that could release it,
@@ -210,6 +233,18 @@ def c17(ctx):
                         n_acc += 1
                         ctx.check('lockset', held, ctx.site(e['fn'], e.get('line')),
                                   '%s: %s without holding the lock' % (f, _descr(e)))
+                # a real mutex that is still held when the call returns blocks the service thread and every producer
+                ctx.check('released', not held, ctx.site(f, m.fn_line(f)), '%s can return (%s) with the lock still held' % (f, rv))
+        # check-then-act: a later critical section that changes parser state is entered only on some outcomes of an
+        # earlier one (there is a path that stops after the earlier sections): another thread can run in between
+        names = [tuple(x[0] for x in secs) for secs in shapes]
+        for secs, nm in zip(shapes, names):
+            for j in range(1, len(secs)):
+                acts = [g for g in secs[j][0] if _writes_state(idx, g)]
+                stops = any(other == nm[:j] for other in names)
+                ctx.check('atomic', not (acts and stops), ctx.site(secs[j][1]['fn'], secs[j][1].get('line')),
+                          '%s decides in one critical section (%s) and acts in a later one (%s): the state can change in between'
+                          % (f, ', '.join(nm[j - 1]) or '-', ', '.join(acts)))
     ctx.extra['accesses_checked'] = n_acc
     # the protected fields are written nowhere else: helpers reachable only through the locking API or cat_init
     owners = set(bracket) | {'cat_init'}
